@@ -50,7 +50,8 @@ RULE = ('type trees: all 16 leaves (12 atomic types, 4 decimals), every depth-1 
         'position holding a null exactly there, random rows with nulls, through createDataFrame with the schema '
         'inferred (list input and sc.parallelize input) and with the explicit schema; late-typed rows (a position that '
         'is None / [] / {} / [None] / {k: None} in some rows and populated in another) in every row order; '
-        'single-position damages of a valid row (null in a non-nullable '
+        'explicit schemas with mixed-type fields in non-alphabetical order against Rows re-listed alphabetically / '
+        'reversed / shuffled at every nesting level (valid and single-position damaged); single-position damages of a valid row (null in a non-nullable '
         'position incl. map keys, a value of a wrong Python type, an out-of-range integer, wrong arity, missing '
         'field) through createDataFrame(schema) and the verifier directly (struct values as Row/tuple/dict); '
         'Rows through pickle (protocols 2 and highest), asDict() and asDict(True); pairs of partially erased '
